@@ -111,7 +111,9 @@ fn probe<T: Serialize + DeserializeOwned + ChallengeInput>(v: &T, ty: &str, n: u
         }
         let a = &img.atoms[i];
         let delta = ScSpec::Rand(seed.wrapping_add(k as u64).wrapping_mul(0x2545_f491_4f6c_dd1d));
-        let Some(bytes) = change_atom(&img, i, &AtomChange::Shift(delta)) else { continue };
+        // two replacements per atom: an unrelated value and the negated one (same x, other sign bit)
+        for change in [AtomChange::Shift(delta), AtomChange::Negate] {
+        let Some(bytes) = change_atom(&img, i, &change) else { continue };
         let v2: T = match wire::dec(&bytes) {
             Ok(x) => x,
             Err(_) => {
@@ -129,11 +131,12 @@ fn probe<T: Serialize + DeserializeOwned + ChallengeInput>(v: &T, ty: &str, n: u
         if c1 == c0 {
             return Err(Fail::new(
                 format!("C12/{}/unhashed-atom/{}", ty, a.field),
-                format!("replacing atom '{}' ({:?}) of a {} (N={}) leaves the derived challenge unchanged", a.path, a.kind, ty, n),
+                format!("replacing atom '{}' ({:?}) of a {} (N={}) by {} leaves the derived challenge unchanged", a.path, a.kind, ty, n, if matches!(change, AtomChange::Negate) { "its negation" } else { "a different value" }),
             )
             .obs("challenge unchanged", "challenge changes"));
         }
-        rec.nontrivial((ty, n, a.path.clone()));
+        rec.nontrivial((ty, n, a.path.clone(), matches!(change, AtomChange::Negate)));
+        }
     }
     rec.class(&format!("{}/N={}", ty, n));
     rec.note("non-response-atoms-replaced", nonresp);
